@@ -346,14 +346,14 @@ class Check:
             if pending is not None:
                 pending += " " + ln.strip()
                 if pending.count("<<") <= pending.count(">>"):
-                    res.prints.append(pending)
+                    res.prints.append(re.sub(r"^<<\s+", "<<", pending))   # TLC pretty-prints long tuples as `<< "TAG",` + one element per line
                     pending = None
                 continue
             if ln.startswith("<<") and ln.count("<<") > ln.count(">>"):
                 pending = ln.strip()
                 continue
             if ln.startswith('"') or ln.startswith("<<"):
-                res.prints.append(ln)
+                res.prints.append(re.sub(r"^<<\s+", "<<", ln))
             m = re.match(r"(\d+) states generated, (\d+) distinct states found", ln)
             if m:
                 res.generated, res.distinct = int(m.group(1)), int(m.group(2))
